@@ -6,7 +6,7 @@
              X.<view>.<line>.R.<prefix>.<from>.<to>                   ReplaceAfter
              X.<view>.<line>.U.<text> | X.<view>.<line>.W.<text>      InsertAbove | InsertBelow
              X.<view>.<line>.D                                        Delete
-             S.<view>
+             S.<view>   |  S.<view>.<key>+<key>...     save; writing the named files fails
              M.<key>.<hex>   |  M.<key>.~                             write | remove, then Evict
    answer  : one token per executed operation, then !index / !assert / !fatal if the run stopped
              L<guard>:<lines>:<fresh lines>   lines = nil | e | <lineno>,<text>,<raw>+<raw>,<fix>;...
@@ -32,7 +32,8 @@ let parse_op (s : string) : op =
   | ["X"; v; i; "U"; t] -> OFix (nat_of_string v, nat_of_string i, FInsertAbove (bytes_of_hex t))
   | ["X"; v; i; "W"; t] -> OFix (nat_of_string v, nat_of_string i, FInsertBelow (bytes_of_hex t))
   | ["X"; v; i; "D"] -> OFix (nat_of_string v, nat_of_string i, FDelete)
-  | ["S"; v] -> OSave (nat_of_string v)
+  | ["S"; v] -> OSave (nat_of_string v, [])
+  | ["S"; v; fl] -> OSave (nat_of_string v, List.map n_of_string (split_on '+' fl))
   | ["M"; k; "~"] -> OModify (n_of_string k, None)
   | ["M"; k; c] -> OModify (n_of_string k, Some (bytes_of_hex c))
   | _ -> failwith ("bad op " ^ s)
